@@ -23,12 +23,14 @@ try:
     report["files"] = files
     assert files and all(f.startswith(("kernel/", "control/")) and not f.endswith("-test.cpp") for f in files), "patch touches non-library files: %s" % files
     extra = " kernel/voxel_assembly/arch/poisson_assembler.cpp kernel/voxel_assembly/arch/burgers_assembler.cpp kernel/voxel_assembly/arch/defo_assembler.cpp" if "voxel" in open(demo).read() else ""
-    build = "g++ -std=c++17 -O1 -fopenmp -I_cfg -I. %s %s%s -o %s/demo.bin" % (demo, " ".join(SUP), extra, wt)
+    mpi = "mpicxx" in meta.get("demo_build", "")
+    build = "%s -std=c++17 -O1 -fopenmp %s-I_cfg -I. %s %s%s -o %s/demo.bin" % ("mpicxx" if mpi else "g++", "-DFEAT_HAVE_MPI " if mpi else "", demo, " ".join(SUP), extra, wt)
+    runner = "mpirun --allow-run-as-root --oversubscribe -n 4 " if mpi else ""
     rc, o = sh(build, cwd=wt); assert rc == 0, "demo does not build on the unchanged tree: " + o[-800:]
-    rc0, o0 = sh(wt + "/demo.bin", cwd=wt, timeout=900)
+    rc0, o0 = sh(runner + wt + "/demo.bin", cwd=wt, timeout=900)
     rc, o = sh("git apply %s" % patch, cwd=wt); assert rc == 0, "patch does not apply: " + o
     rc, o = sh(build, cwd=wt); assert rc == 0, "demo does not build with the patch: " + o[-800:]
-    rc1, o1 = sh(wt + "/demo.bin", cwd=wt, timeout=900)
+    rc1, o1 = sh(runner + wt + "/demo.bin", cwd=wt, timeout=900)
     report["demo_unchanged_rc"] = rc0; report["demo_patched_rc"] = rc1; report["demo_patched_tail"] = o1[-300:]
     tests = []
     for t in meta.get("unit_tests_run", []):
@@ -36,7 +38,8 @@ try:
         if not m: continue
         tf = m.group(1)
         if not os.path.exists(os.path.join(wt, tf)): tests.append((tf, "missing")); continue
-        vox = " kernel/voxel_assembly/arch/poisson_assembler.cpp kernel/voxel_assembly/arch/burgers_assembler.cpp kernel/voxel_assembly/arch/defo_assembler.cpp kernel/solver/voxel_amavanka.cpp" if "voxel" in tf else ""
+        aux = " " + " ".join(sorted(__import__("glob").glob(wt + "/kernel/geometry/test_aux/*.cpp"))) if "test_aux" in open(os.path.join(wt, tf)).read() else ""
+        vox = aux + " kernel/voxel_assembly/arch/poisson_assembler.cpp kernel/voxel_assembly/arch/burgers_assembler.cpp kernel/voxel_assembly/arch/defo_assembler.cpp kernel/solver/voxel_amavanka.cpp" if "voxel" in tf else aux
         rc, o = sh("g++ -std=c++17 -O1 -fopenmp -I_cfg -I. %s test_system/test_system.cpp %s%s -o %s/t.bin && %s/t.bin" % (tf, " ".join(SUP), vox, wt, wt), cwd=wt, timeout=3000)
         tests.append((tf, "PASSED" if rc == 0 and "PASSED" in o and "FAILED" not in o.split("tests")[-1] else "FAILED: " + o[-200:]))
     report["unit_tests_with_patch"] = tests
